@@ -514,6 +514,13 @@ func (r *coreRun) exec(ev coreEvent) (rec map[string]any) {
 		for i := 0; i < 70000; i++ {
 			root.New()
 		}
+	case "Lookup":
+		// the direct child of l's parent that bears l's name is l (a logger without parent is left alone)
+		if p := l.Parent(); p != nil {
+			ret = r.idOf(p.New(l.Name()))
+		} else {
+			ret = ev.L
+		}
 	case "LogNest":
 		r.logNest(l, ev, rec)
 	case "EachNew":
